@@ -298,8 +298,148 @@ def GD_show(pc):
     return GD.show(pc)[:140]
 
 
+def _is_run_splitter(h):
+    """Does function h return the runs of consecutive values of its argument as (first value, position, length) triples that partition all positions?
+    edges = r_[0, flatnonzero(diff(x) != 1) + 1, len(x)] ; [(x[i0], i0, i1 - i0) for i0, i1 in zip(edges[:-1], edges[1:])]"""
+    from sa.common import expand_deep
+    du = DefUse(h.node)
+    rets = returns_of(h.node)
+    if len(rets) != 1 or rets[0].value is None or len(h.params) != 1:
+        return False
+    x = h.params[0]
+    v = expand_deep(du, rets[0].value, rets[0])
+    if not (isinstance(v, ast.ListComp) and len(v.generators) == 1 and isinstance(v.elt, ast.Tuple) and len(v.elt.elts) == 3):
+        return False
+    g = v.generators[0]
+    if not (isinstance(g.iter, ast.Call) and call_name(g.iter) == "zip" and len(g.iter.args) == 2 and isinstance(g.target, ast.Tuple) and len(g.target.elts) == 2):
+        return False
+    i0, i1 = (loc_name(e) for e in g.target.elts)
+    a0, a1 = g.iter.args
+    t0, t1 = src(a0).replace(" ", ""), src(a1).replace(" ", "")
+    if not (t0.endswith("[:-1]") and t1.endswith("[1:]") and t0[:-5] == t1[:-4]):
+        return False
+    edges = t0[:-5]
+    if not (("r_[0," in edges or "concatenate(([0]," in edges) and "diff(" + x + ")!=1" in edges and "+1" in edges and (f"len({x})" in edges or f"{x}.size" in edges)):
+        return False
+    strip = lambda e: src(e.args[0] if isinstance(e, ast.Call) and call_name(e) == "int" and e.args else e).replace(" ", "")  # noqa: E731
+    e0, e1, e2 = (strip(e) for e in v.elt.elts)
+    return e0 == f"{x}[{i0}]" and e1 == i0 and e2 == f"{i1}-{i0}"
+
+
+def is_piecewise(fi):
+    """check_NP24 compares run by run (for (c0, p0, n) in table: assert array_equal(...)) instead of re-assembling a frame."""
+    for lp in walk_function(fi.node):
+        if isinstance(lp, ast.For) and isinstance(lp.target, ast.Tuple) and len(lp.target.elts) == 3:
+            if any(isinstance(x, ast.Assert) and any(call_name(c) in ("array_equal", "array_equiv") for c in find(x.test, ast.Call)) for b in lp.body for x in ast.walk(b)):
+                return True
+    return False
+
+
+def _piecewise_verification(ctx, fi, lp):
+    """Verification written run by run: inside the window loop, for every shank, for (c0, p0, n) in TABLE[shank]: assert equal(original[:, c0:c0+n], shank file[:, p0:p0+n]).
+    The table of a shank must be the run table of exactly the columns to verify: all of its channels for the first shank, all but the last (the duplicated sync) for the
+    others.  A run table partitions its argument; cutting the *table* removes a whole run (every channel contiguous with the sync channel), not one channel.
+    -> None when the loop is not of this form, else True (rule instances recorded)."""
+    from sa.common import expand_deep
+    repo = ctx.repo
+    du = DefUse(fi.node)
+    inner = [x for b in lp.body for x in ast.walk(b) if isinstance(x, ast.For) and isinstance(x.target, ast.Tuple) and len(x.target.elts) == 3]
+    if not inner:
+        return None
+    lp3 = inner[0]
+    c0, p0, n_ = (loc_name(e) for e in lp3.target.elts)
+    asserts = [x for b in lp3.body for x in ast.walk(b) if isinstance(x, ast.Assert)]
+    eq = [c for a in asserts for c in find(a.test, ast.Call) if call_name(c) in ("array_equal", "array_equiv") and len(c.args) >= 2]
+    if not eq:
+        return None
+
+    def colrange(e):
+        e = e if isinstance(e, ast.Subscript) else None
+        if e is None or not (isinstance(e.slice, ast.Tuple) and len(e.slice.elts) == 2 and isinstance(e.slice.elts[1], ast.Slice)):
+            return None
+        sl = e.slice.elts[1]
+        rows = e.slice.elts[0]
+        full_rows = isinstance(rows, ast.Slice) and rows.lower is None and rows.upper is None
+        lo, up = loc_name(sl.lower), src(sl.upper).replace(" ", "") if sl.upper is not None else None
+        return expand_deep(du, e.value, e), lo, up, full_rows
+    A, B = colrange(eq[0].args[0]), colrange(eq[0].args[1])
+    if A is None or B is None:
+        return None
+    orig, shank = (A, B) if "self.sr" in src(A[0]) and "shank_info" not in src(A[0]) else (B, A)
+    okcols = orig[1] == c0 and orig[2] in (f"{c0}+{n_}", f"{n_}+{c0}") and shank[1] == p0 and shank[2] in (f"{p0}+{n_}", f"{n_}+{p0}") and orig[3] and shank[3]
+    tn = [loc_name(e) for e in (lp.target.elts if isinstance(lp.target, ast.Tuple) else [lp.target])][:2]
+    rows_txt = f"[{tn[0]}:{tn[1]},:]"
+    okrows = src(orig[0]).replace(" ", "").endswith(rows_txt) and src(shank[0]).replace(" ", "").endswith(rows_txt) and "shank_info" in src(shank[0])
+    ctx.check(okcols and okrows, fi, eq[0], eq[0], "each run compares original[:, c0:c0+n] with the shank file's [:, p0:p0+n] over the whole window",
+              f"`{src(eq[0])[:100]}` does not compare the run's columns of the original window with the run's columns of the shank file", key="piece-compare", name_free=True)
+    # the table
+    tab = lp3.iter
+    tname = loc_name(tab.value) if isinstance(tab, ast.Subscript) else loc_name(tab)
+    stores = [st for st in walk_function(fi.node) if isinstance(st, ast.Assign) and isinstance(st.targets[0], ast.Subscript) and loc_name(st.targets[0].value) == tname]
+    if not stores:
+        raise AnalysisError(f"check_NP24: table `{tname}` of the verified runs is not filled by key")
+    cfg = CFG(fi.node)
+    built = False
+    for st in stores:
+        v = st.value
+        gs = [(src(t), pol) for t, pol in cfg.guards(cfg.node_for(st))]
+        if isinstance(v, ast.Call) and repo.resolve_expr(fi, v.func) in repo.functions and len(v.args) == 1:
+            h = repo.functions[repo.resolve_expr(fi, v.func)]
+            ctx.check(_is_run_splitter(h), fi, st, st, "the table is the partition of its argument into runs of consecutive channels (first channel, position, length)",
+                      f"`{src(v.func)}` is not recognised as splitting its argument into runs (first value, position, length) that cover every position", key="run-table", name_free=True)
+            arg = expand_deep(du, v.args[0], st)
+            at = src(arg).replace(" ", "")
+            whole = at.endswith("['chns']") or at.endswith('["chns"]')
+            but_last = at.endswith("['chns'][:-1]") or at.endswith('["chns"][:-1]')
+            cond = isinstance(arg, ast.IfExp)
+            ctx.shared.setdefault("C04.run_tables", []).append((st, whole, but_last, cond, gs))
+            built = True
+            continue
+        # a later store that cuts the table itself
+        if isinstance(v, ast.Subscript) and isinstance(v.value, ast.Subscript) and loc_name(v.value.value) == tname and isinstance(v.slice, ast.Slice):
+            ctx.violation(fi, st, st, f"`{src(st)}` drops the last RUN of the shank's table to skip the duplicated sync column: a run is every channel contiguous with it - on a shank whose "
+                          "last sites are numbered right before the sync channel (e.g. 336..383 + 384 on the standard 4-shank map) those channels are never compared, yet the verification "
+                          "is marked as completed and the original may be deleted", key="run-table-cut", name_free=True)
+            continue
+        raise AnalysisError(f"check_NP24: store `{src(st)[:60]}` into the run table not understood")
+    if not built:
+        raise AnalysisError("check_NP24: run table is not built by a run-splitting helper")
+    recs = ctx.shared.get("C04.run_tables", [])
+    # coverage: first shank whole, others without their last channel - as a conditional argument, or one store per branch
+    ok = False
+    for st, whole, but_last, cond, gs in recs:
+        if cond:
+            arg = expand_deep(du, st.value.args[0], st)
+            t_, b_, o_ = src(arg.test).replace(" ", ""), src(arg.body).replace(" ", ""), src(arg.orelse).replace(" ", "")
+            first_is_body = t_ in ("ish==0", "0==ish", "notish")
+            first_is_else = t_ in ("ish>0", "ish!=0", "ish>=1", "ish")
+            w, bl = (b_, o_) if first_is_body else (o_, b_)
+            ok = (first_is_body or first_is_else) and w.endswith("['chns']") and bl.endswith("['chns'][:-1]")
+    if not ok:
+        br = {("first" if any(t.replace(" ", "") in ("ish==0",) and pol or t.replace(" ", "") in ("ish>0", "ish!=0") and not pol for t, pol in gs) else
+               "other" if any(t.replace(" ", "") in ("ish==0",) and not pol or t.replace(" ", "") in ("ish>0", "ish!=0") and pol for t, pol in gs) else "all"): (whole, but_last)
+              for st, whole, but_last, cond, gs in recs if not cond}
+        ok = br.get("first") == (True, False) and br.get("other") == (False, True)
+        cut = any(r.key == "run-table-cut" for r in ctx.results if getattr(r, "key", None))
+        if not ok and br.get("all") == (True, False) and cut:
+            return True    # reported above
+    ctx.check(ok, fi, recs[0][0], recs[0][0], "run tables cover every channel of the first shank and every channel but the duplicated sync of the others",
+              "the run tables do not cover (first shank: all its channels; other shanks: all but their last channel): some columns of the split files are never compared "
+              "(or the duplicated sync is compared against the wrong column)", key="run-coverage", name_free=True)
+    wgs = [c for c in find(fi.node, ast.Call, nested=False) if call_name(c) == "WindowGenerator"]
+    okw = False
+    for w in wgs:
+        a = list(w.args) + [k.value for k in w.keywords]
+        okw = len(a) >= 3 and loc_name(a[0]) == "self.nsamples" and isinstance(a[2], ast.Constant) and a[2].value == 0
+    ctx.check(okw, fi, wgs[0] if wgs else fi.node, wgs[0] if wgs else "WindowGenerator", "verification windows tile self.nsamples with overlap 0",
+              "verification windows do not tile self.nsamples with zero overlap", key="verify-windows")
+    return True
+
+
 def _check_loop(ctx, fi, lp):
     repo = ctx.repo
+    if _piecewise_verification(ctx, fi, lp):
+        return
     if True:
         # loop body asserts equality of the full original window
         asserts = [x for b in lp.body for x in ast.walk(b) if isinstance(x, ast.Assert)]
